@@ -173,6 +173,11 @@ def check(spec, ctx):
                 ctx.fail(f"{how}: a clip lengthened from [{start},{end}] to [{start},{longer_end}] yields {len(got2)} segments, its own lattice has {len(ref2)}", spec, got2[-3:], ref2[-3:], kind="stale_clip")
         if [(x.start_time, x.end_time) for x in segment_clip(clip, **kw)] != got:
             ctx.fail("segmenting the original clip again gives a different answer after deriving copies", spec, None, None, kind="not_repeatable")
+    # include_incomplete defaults to False
+    if not inc:
+        kw_d = {k: v for k, v in kw.items() if k != "include_incomplete"}
+        if [(x.start_time, x.end_time) for x in segment_clip(clip, **kw_d)] != got:
+            ctx.fail("omitting include_incomplete differs from include_incomplete=False", spec, None, None, kind="defaults")
     # identifiers
     ids = [s.uuid for s in segs]
     if len(set(ids)) != len(ids):
